@@ -390,6 +390,9 @@ func main() {
 		os.Exit(3)
 	}
 	writeIfChanged(filepath.Join(*out, "ServerFacts.lean"), "-- GENERATED by /verif/harness/cmd/extract from /repo's server.go (do not edit)\nnamespace Dns.Gen\n"+p.serverFacts()+"end Dns.Gen\n")
+	tps := p.textPlans()
+	writeIfChanged(filepath.Join(*out, "TextPlans.lean"), "-- GENERATED by /verif/harness/cmd/extract from /repo's scan_rr.go and types.go (do not edit): the RDATA parsers and printers\n-- that use only the idioms of the text algebra (DnsModel/TextCodec.lean), translated into its steps\nimport DnsModel.TextCodecBase\nnamespace Dns.Gen\nopen Dns\n"+leanTextPlans(tps)+"end Dns.Gen\n")
+	writeIfChanged(filepath.Join(*out, "textplans.json"), jsonTextPlans(tps))
 	lt := p.lexTables()
 	if len(failures) > 0 {
 		for _, f := range failures {
